@@ -1,7 +1,8 @@
 (** C04 - No input bytes can crash, hang or exhaust a decoder.
     Models: Wire/Decode.v (raw validation), Wire/Unmarshal.v (Param decoder, typed decoder over the type algebra [ety]),
     Wire/HasSig.v, Wire/Body.v (has_sig of the typed impls and derived structs, MessageBodyParser), Sig/Parser.v,
-    Sig/Validator.v, Sig/Iter.v. In the models every Rust index / slice / unwrap that input could reach is an
+    Sig/Validator.v, Sig/Iter.v, Wire/Derive.v, Wire/Enums.v (derived structs; derive / dbus_variant_sig! / dbus_variant_var! enums).
+    In the models every Rust index / slice / unwrap that input could reach is an
     explicit [Panic] and every loop runs on fuel ([OutOfFuel]); [ok_or_err] says the outcome is a value or an error.
     Unsafe code: after fix b23f55c the slice fast path copies the elements (Vec<E>) or tests the address before it
     borrows (Cow<[E]>: same value, not modelled separately), so the model has no [UB] outcome left to exclude; the
@@ -12,7 +13,8 @@
     Header entry points: C06. Stack bytes per level and time per step are measured by the check, not proved. *)
 From RB Require Import Base.Prelude Sig.Types Sig.Parser Sig.ParserProofs Sig.Validator Sig.ValidatorProofs Sig.Iter
   Wire.Value Wire.SpecEnc Wire.Marshal Wire.Decode Wire.Unmarshal Wire.Relabel Wire.Ops Wire.DecodeSoundLemmas Wire.DecodeTotal
-  Wire.HasSig Wire.HasSigProofs Wire.Body Wire.ParserTotal Wire.Limits Wire.LimitsProofs Wire.LimitsBounds.
+  Wire.HasSig Wire.HasSigProofs Wire.Body Wire.ParserTotal Wire.Bytes Wire.Align Wire.Derive Wire.Enums Wire.EnumsTotal
+  Wire.Limits Wire.LimitsProofs Wire.LimitsBounds.
 
 (* raw validation: any bytes, any offset inside the buffer, any (well-formed) type, both byte orders *)
 Theorem C04_total_validate : forall be off buf t, wf t = true -> off <= len buf ->
@@ -88,12 +90,31 @@ Print Assumptions C04_total_signatures.
 
 (* resources: the nesting of every value the Param decoder returns is at most 64 (so is its recursion), and a length
    field above 2^26 ends every decoder before anything behind it is read: C18_decode_depth_value, C18_decode_length.
-   What the typed fast path allocates (Vec::with_capacity(bytes / align)) is bounded by the bytes present: *)
+   The allocation of the typed slice fast path (Vec<E>, Cow<[E]>: Vec::with_capacity(bytes_in_array / alignment) in
+   copy_slice_bytes) is determined by the length field n that was read at the aligned position and bounded by the bytes that
+   are really there: n <= 2^26, n is a whole number of elements, the n bytes lie inside the buffer behind the padding, and the
+   decoded array has exactly n / alignment elements - the capacity requested. (The model has no separate output for the
+   with_capacity argument: it is the element count of the value returned.) *)
 Theorem C04_slice_alloc : forall be vf x c v c', valid_slice be (erase x) = true -> uoff c <= len (ubuf c) ->
   unmarshal_t (S vf) be (EArray x) c = Ok (v, c') ->
-  exists n, n <= MAX_ARRAY /\ uoff c + 4 + n <= uoff c' /\ uoff c' <= len (ubuf c).
+  let n := dec be (slice (ubuf c) (len_pos (uoff c)) 4) in
+  let start := len_pos (uoff c) + 4 + padlen (ealign x) (len_pos (uoff c) + 4) in
+  n <= MAX_ARRAY /\ n mod ealign x = 0 /\ uoff c' = start + n /\ start + n <= len (ubuf c)
+  /\ exists vs, v = VArray (erase x) vs /\ len vs = n / ealign x.
 Proof. exact slice_alloc_bound. Qed.
 Print Assumptions C04_slice_alloc.
+
+(* derived and macro-generated enums: the decoders that #[derive(Unmarshal)] on an enum, dbus_variant_sig! and dbus_variant_var!
+   generate (models: Wire/Enums.v), for any list of cases whose payload types are types of the algebra [rty] (Vec, HashMap,
+   tuples, derived structs, Variant<T> over the base types; [rty_ok]: no empty tuple struct, at most 65 Variant<..> nested in
+   the type), on ANY bytes: a value or an error, and so does Catchall(variant).get::<T>() *)
+Theorem C04_total_enums : forall be c, uoff c <= len (ubuf c) ->
+  (forall cs, Forall (fun k => rty_ok (case_rty k)) cs -> ok_or_err (derive_enum_unmarshal 66 be cs c))
+  /\ (forall cs, Forall rty_ok cs -> ok_or_err (sig_macro_unmarshal 66 be cs c))
+  /\ (forall cs, Forall rty_ok cs -> ok_or_err (var_macro_unmarshal 66 be cs c))
+  /\ (forall t r, rty_ok r -> ok_or_err (catch_var_get 66 be t c r)).
+Proof. exact enums_total. Qed.
+Print Assumptions C04_total_enums.
 
 (* resources, linear bounds. WANTED (DESIGN.md): steps <= 4 * |input| + K1, depth <= 64 + K2, alloc <= 2 * |input| + K3 for
    every entry point and for failing runs too, on an instrumented model. PROVED (partial): whenever the Param decoder
